@@ -27,6 +27,12 @@ CLAIMED["C14"] = dict(
     level_note="One clause of the property only. Not decided: parser equivalence (native vs default), line exists / column within line (needs the source text). ErrorInfo.read (cache replay) relies on the writer. Trusted: z3, engine encoding.",
     technique="contract-based deductive verification: VC generation from the real AST, SMT discharge (z3)")
 
+CLAIMED["C16"] = dict(
+    engine="pyvc", category="proof", design_ref="DESIGN.md section 5 C16",
+    text="Framing: IPCBase.frame_from_buffer / read_bytes (loop invariant; recv is an arbitrary chunking of an arbitrary stream) / write_bytes proved against the length-prefix specification for all byte strings and all segmentations, plus the executable lemma decode(encode(m) ++ rest) = (m, rest). Serve loop: exceptional postcondition of Server.serve (an exception leaves it only as SystemExit, idle timeout or a daemon bug inside a command; client faults on receive/send never do) and 'status file removed on every exit path'; dmypy_util.receive raises only OSError; unknown commands get an error response.",
+    level_note="Trusted: z3/cvc5, engine encoding, struct.pack/unpack('!L') as big-endian base-256, socket recv/sendall, json.loads, os.unlink (modelled by contracts with ghost origins). Assumed callee contracts inside serve: run_command (returns / daemon bug / SystemExit; cmd_stop removes the status file), IPCServer.__enter__ (accept or idle timeout). Posix branches only (sys.platform of the check host); Windows named pipes, ready_to_read and real socket behaviour are not decided. One arbitrary iteration of the serve loop (invariant: status file present, last command not 'stop').",
+    technique="contract-based deductive verification: VC generation from the real AST with loop invariants, exceptional postconditions and ghost origins; SMT discharge (z3, cvc5)")
+
 NOT_APPLICABLE = {
     "C01": "soundness of the whole checker against CPython's dynamic semantics: no per-function contract expresses it (DESIGN.md 5 C01)",
     "C05": "compiler correctness of mypyc end to end: a simulation proof, not a function contract (DESIGN.md 5 C05); the numeric leaf is C15",
@@ -42,7 +48,6 @@ NOT_APPLICABLE = {
     "C10": "not yet built in this round",
     "C11": "not yet built in this round",
     "C15": "not yet built in this round",
-    "C16": "not yet built in this round",
     "C18": "not yet built in this round",
     "C20": "not yet built in this round",
 }
